@@ -292,6 +292,24 @@ CLAIMED = {
         "Z.sqrt comparator).",
         "DESIGN.md section 5, C01",
     ),
+    "C15": (
+        "Coq/MathComp proofs (bigop algebra over an ordered ring, list permutation invariance) about a hand-written "
+        "executable model of associative_memory.py; exact comparison of the built networks' connection transforms and "
+        "Direct-mode outputs with the model in Coq; seeded rate-neuron simulations compared with the ideal-unit memory",
+        "Theorems for every ordered ring, any number of keys and any dimensionalities: utilities are the similarities to "
+        "the keys; with linear selection the output is the sum of the paired outputs weighted by similarity, independent "
+        "of mapping order; the network's route np.dot(V.T, s) realises that pairing; with ideal threshold units a key "
+        "above the threshold whose competitors are at or below it yields its own output alone, and an input at or below "
+        "the threshold everywhere yields the zero vector; the default gate is open when no unit is active and closed when "
+        "any unit reaches min_activation_value; missing, empty and ill-typed mappings are rejected, key sequences and "
+        "'by-key' are auto-associative. PARTIAL: the winner-take-all and accumulator clauses (clean key alone; only the "
+        "stronger of two competitors) rest on dynamics that are not modelled; they are checked by seeded LIFRate "
+        "simulation against the intended steady state at 0.15 tolerance, as is the idealisation 'thresholding ensemble = "
+        "threshold unit'.",
+        "Trusted: Coq kernel + vm_compute; Model/AssocMem.v; Vocabulary.parse for key/output expressions (C10); Nengo "
+        "builder and simulator (Direct mode for the exact part, LIFRate with fixed seeds for the selection part); harness.",
+        "DESIGN.md section 5, C15",
+    ),
     "C05": (
         "Coq/MathComp proofs (index arithmetic of the product-unit layout; the per-block MatrixMult composition equals the "
         "kron/reshape binding core; helper matrices are the transposition) about a hand-written executable model of the "
